@@ -1,6 +1,8 @@
 """C17 — default values survive the trip through prose.  Oracle on the implementation + classification by the
 extracted Coq guard (finding_class_C17)."""
+import ast
 import collections
+import math
 
 from common import Sym, dumps, loads, opt, enc_pyval, impl, run_model, unhx
 import gen_text as G
@@ -112,7 +114,139 @@ def substituted_holds(pt):
     return ok, (what and "prose %r substituted char-for-char from %r: %s" % (pt["d"], pt["d_ascii"], what))
 
 
+# ------------------------------------------------------------------ the argparse-help route
+# A help text of a hand-written `add_argument` call is prose too, and parse.argparse_ast is a reader of it: the default
+# announced there (with or without a `default=` keyword next to it, with or without `type=`) must be read back with the
+# value and the Python type it was written with, and - when the reader removes the sentence (argparse_ast always does,
+# unless a `default=` keyword made it skip the prose) - the surrounding prose must come back unchanged.
+ARGPARSE_TEMPLATE = '''
+def set_cli_args(argument_parser):
+    """
+    Set CLI arguments
+
+    :param argument_parser: argument parser
+    :type argument_parser: ```ArgumentParser```
+
+    :returns: argument_parser
+    :rtype: ```ArgumentParser```
+    """
+    argument_parser.description = {description!r}
+{before}    argument_parser.add_argument({args})
+{after}    return argument_parser
+'''
+ARGPARSE_NEIGHBOURS = ["    argument_parser.add_argument('--other', type=int, help='Another one.', default=3)\n",
+                       "    argument_parser.add_argument('--flag', type=bool, help='A flag.', required=True)\n",
+                       "    argument_parser.add_argument('--name', help='The name. Defaults to anon')\n"]
+
+
+def _type_kw(rng, v):
+    """`type=` of the add_argument call: consistent with the value, or absent (argparse's implicit str)"""
+    if isinstance(v, bool):
+        return rng.choice(["bool", "bool", None])
+    if isinstance(v, int):
+        return rng.choice(["int", "int", "int", None])
+    if isinstance(v, float):
+        return rng.choice(["float", "float", "float", None])
+    if isinstance(v, str) and not v.startswith("```"):
+        return rng.choice(["str", None])
+    return None
+
+
+def _literal_ok(v):
+    """can the value be written as the literal of a `default=` keyword?"""
+    return not (isinstance(v, float) and (math.isinf(v) or math.isnan(v)))
+
+
+def gen_argparse_points(rng, n):
+    """points of the argparse-help route: the (phrase, prose, value) strata of gen_points; the sentence written as a human
+    writes a help text (no declared type: bare words, bare numerals) or, less often, under the declared type (quoted
+    strings); `type=` present or absent; a `default=` keyword next to the announcement or (mostly) not; sometimes
+    `required=True`, neighbouring arguments before/after"""
+    pts = []
+    for p in gen_points(rng, n):
+        v = p["v"]
+        q = {"route": "argparse", "a": p["a"], "d": p["d"], "v": v,
+             "t": p["t"] if rng.random() < 0.25 else None,
+             "type_kw": _type_kw(rng, v),
+             "default_kw": _literal_ok(v) and rng.random() < 0.25,
+             "required": rng.random() < 0.15,
+             "name": G.ident(rng) if rng.random() < 0.5 else "p",
+             "before": rng.random() < 0.2, "after": rng.random() < 0.2}
+        pts.append(q)
+    return pts
+
+
+def argparse_source(pt, line):
+    args = [repr("--" + pt["name"])]
+    if pt["type_kw"]:
+        args.append("type=" + pt["type_kw"])
+    args.append("help=" + repr(line))
+    if pt["default_kw"]:
+        args.append("default=" + repr(None if pt["v"] == "```(None)```" else pt["v"]))
+    if pt["required"]:
+        args.append("required=True")
+    return ARGPARSE_TEMPLATE.format(description="Some description", args=", ".join(args),
+                                    before=ARGPARSE_NEIGHBOURS[0] if pt["before"] else "",
+                                    after=ARGPARSE_NEIGHBOURS[2] if pt["after"] else "")
+
+
+def written_line(pt):
+    """the prose with the default announced, as set_default_doc writes it (phrase 'Defaults to ') or as the other
+    announcement phrases are written by hand; (line, None) or (None, what went wrong)"""
+    m = impl()
+    du, pu = m.defaults_utils, m.pure_utils
+    a, d, v, t = pt["a"], pt["d"], pt["v"], pt["t"]
+    try:
+        if a == "defaults-to":
+            p = {"doc": d, "default": v}
+            if t is not None:
+                p["typ"] = t
+            line = du.set_default_doc(("x", p), emit_default_doc=True)[1]["doc"]
+            if not line.startswith(d + " Defaults to "):
+                return None, "sentence not written as prose + ' Defaults to ' + value: %r" % line
+        else:
+            vv = None if v == "```(None)```" else v
+            shown = pu.quote(vv) if isinstance(vv, (str, type(None))) and du.needs_quoting(t) else vv
+            line = "{} {}{}".format(d, ANN[a], shown)
+    except Exception as e:  # noqa
+        return None, "writing the sentence raised %s" % type(e).__name__
+    return line, None
+
+
+def argparse_holds(pt):
+    """evaluate C17 at one point of the argparse-help route on the real code; returns (holds, what)"""
+    m = impl()
+    line, what = written_line(pt)
+    if line is None:
+        return False, what
+    src = argparse_source(pt, line)
+    try:
+        fn = ast.parse(src).body[0]
+    except SyntaxError as e:  # the harness wrote something unparsable: not a verdict about the code
+        raise AssertionError("argparse route: harness source does not parse: %s" % e)
+    try:
+        ir = m.parse.argparse_ast(fn)
+    except Exception as e:  # noqa
+        return False, "parse.argparse_ast raised %s (%s) on help text %r%s" % (
+            type(e).__name__, str(e)[:80], line, ", type=%s" % pt["type_kw"] if pt["type_kw"] else "")
+    got = ir["params"].get(pt["name"])
+    if got is None:
+        return False, "argument %r not among the parameters read: %r" % (pt["name"], list(ir["params"]))
+    if "default" not in got:
+        return False, "no default read back from help text %r" % line
+    if not same_default(pt["v"], got["default"]):
+        return False, "value %r (%s) came back as %r (%s) from help text %r" % (
+            pt["v"], type(pt["v"]).__name__, got["default"], type(got["default"]).__name__, line)
+    if not pt["default_kw"] and got.get("doc") != pt["d"]:
+        return False, "removal returned %r instead of %r" % (got.get("doc"), pt["d"])
+    if pt["default_kw"] and got.get("doc") not in (pt["d"], line):
+        return False, "help text %r came back as %r (neither kept nor the prose %r)" % (line, got.get("doc"), pt["d"])
+    return True, ""
+
+
 def check_case(case):
+    if case.get("route") == "argparse":
+        return argparse_holds(case)
     if "d_ascii" in case:
         return substituted_holds(case)
     if "a" in case:
@@ -188,13 +322,41 @@ def oracle(rng, tier):
             if got != p:
                 failures.append({"case": {"line": l, "emit": emit, "fn": "set_default_doc"},
                                  "what": "set_default_doc altered prose without default: %r" % (got,), "class": None})
+    # (iv) the argparse-help route: the same strata of (phrase, prose, value), the announcement sitting in the help text
+    # of an add_argument call read by parse.argparse_ast.  That reader hands no declared type to the extractor, so a
+    # point is classified as the undeclared point (phrase, prose, value, None) of the Coq classifier.
+    apts = gen_argparse_points(rng, 700 if tier == "quick" else 12000)
+    acls = run_model([dumps([Sym("c17_class"), Sym(p["a"]), p["d"], enc_pyval(p["v"]), opt(None)]) for p in apts])
+    n4 = 0
+    for p, c in zip(apts, acls):
+        ce = loads(c)
+        if ce == "out-of-domain":
+            hist["argparse-help:out-of-domain"] += 1
+            continue
+        cls = None if ce == "none" else unhx(ce[1])
+        if cls == "unmodelled":
+            hist["argparse-help:skipped-unmodelled"] += 1
+            continue
+        ok, what = argparse_holds(p)
+        n4 += 1
+        shape = "%s,%s,%s" % ("default-kw" if p["default_kw"] else "help-only",
+                              "type=" + p["type_kw"] if p["type_kw"] else "no-type",
+                              "typed-sentence" if p["t"] is not None else "bare-sentence")
+        hist["argparse-help:%s:%s" % ("holds" if ok else "fails", cls or "in-guard")] += 1
+        hist["argparse-help-shape:" + shape] += 1
+        if ok and cls is None and p["d"]:
+            seen.add(dumps(["argparse", p["a"], p["d"], enc_pyval(p["v"]), opt(p["t"]), opt(p["type_kw"]), p["default_kw"]]))
+        if not ok:
+            failures.append({"case": p, "what": what, "class": cls})
     return {
-        "evaluations": len(pts) + n3 + n_sub,
+        "evaluations": len(pts) + n3 + n_sub + n4,
         "distinct_nontrivial": len(seen),
         "rule": "points (announce phrase, prose, value, declared type) from gen_text strata; non-trivial = distinct point "
                 "inside the proved region (guard_C17) with non-empty prose; plus no-announcement lines x flag grid; plus in-guard "
                 "points on which the property holds re-evaluated with letters of the prose replaced char-for-char by non-ASCII "
-                "letters (metamorphic: same sentence, same default, removal returns the substituted prose)",
+                "letters (metamorphic: same sentence, same default, removal returns the substituted prose); plus the argparse-help "
+                "route (the announcement in the help text of an add_argument call, with/without default=, with/without type=, "
+                "read by parse.argparse_ast; classified as the undeclared point)",
         "failures": failures,
         "model_impl_property_disagreements": disagree,
         "histogram": dict(hist),
